@@ -886,10 +886,16 @@ def e_struct_unpack(it, args, kwargs, node):
                 piece = seqops.sub_seq(it, data, off, off + sz)
                 off = off + sz
                 if code in _RANGES:
-                    s = it.fresh('u')
-                    lo, hi = _RANGES[code]
-                    it.store.declare(s, lo, hi, info=f'unpack {order}{code} of {piece!r}')
-                    it.origin[s] = ('unpack', order + code, piece)
+                    # the same bytes unpacked with the same code give the same number (functional consistency)
+                    memo = it.__dict__.setdefault('_pure_memo', {})
+                    mk = ('unpack', order + code, it._seq_key(piece))
+                    s = memo.get(mk)
+                    if s is None:
+                        s = it.fresh('u')
+                        lo, hi = _RANGES[code]
+                        it.store.declare(s, lo, hi, info=f'unpack {order}{code} of {piece!r}')
+                        it.origin[s] = ('unpack', order + code, piece)
+                        memo[mk] = s
                     out.append(IntV(Lin.sym(s), value_tags(data) | ({'wire-int'} if wire else set())))
                 else:
                     out.append(SymV(it.fresh('unpacked'), 'any', origin=('unpack', order + code, piece)))
@@ -1029,7 +1035,47 @@ def e_chain_from_iterable(it, args, kwargs, node):
     return it.call_function(it.an.prog.synthetic('chain_from_iterable'), list(args), {}, node=node)
 
 
+def _syn(name, nargs=None, fill=None):
+    def f(it, args, kwargs, node):
+        a = list(args)
+        if fill is not None:
+            a = a + list(fill[len(a) - (nargs - len(fill)):]) if len(a) < nargs else a
+        if (nargs is not None and len(a) != nargs) or kwargs:
+            it.note_unknown(node, f'{name} arguments')
+            return IterV(UnkV(name), desc=name)
+        return it.call_function(it.an.prog.synthetic(name), a, {}, node=node)
+    return f
+
+
+def e_repeat(it, args, kwargs, node):
+    if len(args) == 1 and not kwargs:
+        return it.call_function(it.an.prog.synthetic('repeat1'), list(args), {}, node=node)
+    if len(args) == 2 or 'times' in kwargs:
+        return it.call_function(it.an.prog.synthetic('repeat2'), [args[0], args[1] if len(args) > 1 else kwargs['times']], {}, node=node)
+    return IterV(UnkV('repeat'), desc='repeat')
+
+
+def e_count(it, args, kwargs, node):
+    start = args[0] if args else kwargs.get('start', IntV(0))
+    step = args[1] if len(args) > 1 else kwargs.get('step', IntV(1))
+    return it.call_function(it.an.prog.synthetic('count2'), [start, step], {}, node=node)
+
+
+def e_tee(it, args, kwargs, node):
+    """tee(iterable, n): n independent iterators over the same items - modelled by draining the iterable once"""
+    n = it.py_key(args[1]) if len(args) > 1 else 2
+    src = it.resolve(args[0])
+    if isinstance(src, GenCallV):
+        src = it.drain_generator(src, node)
+    if not isinstance(n, int) or not isinstance(src, (ListV, TupleV, SeqV)):
+        it.note_unknown(node, 'itertools.tee of an iterator that cannot be replayed')
+        return TupleV([IterV(UnkV('tee'), desc='tee')] * (n if isinstance(n, int) else 2))
+    return TupleV([src] * n)
+
+
 def e_islice(it, args, kwargs, node):
+    if len(args) == 3 and not kwargs:
+        return it.call_function(it.an.prog.synthetic('islice3'), list(args), {}, node=node)
     if len(args) == 2 and not kwargs:
         return it.call_function(it.an.prog.synthetic('islice_stop'), list(args), {}, node=node)
     it.note_unknown(node, 'itertools.islice with start / step')
@@ -1205,6 +1251,12 @@ def e_random_generic(name):
 
 def e_int_from_bytes(it, args, kwargs, node):
     v = it.resolve(args[0])
+    order = it.py_key(args[1] if len(args) > 1 else kwargs.get('byteorder'))
+    signed = kwargs.get('signed')
+    memo = it.__dict__.setdefault('_pure_memo', {})
+    mk = ('from_bytes', it._seq_key(v), order, repr(signed)) if isinstance(v, SeqV) else None
+    if mk is not None and mk in memo:
+        return IntV(Lin.sym(memo[mk]), value_tags(v))
     s = it.fresh('t')
     hi = None
     if isinstance(v, SeqV):
@@ -1212,7 +1264,9 @@ def e_int_from_bytes(it, args, kwargs, node):
         if ln.is_const() and ln.c <= 64:
             hi = 256 ** ln.c - 1
     it.store.declare(s, 0, hi, info=f'int.from_bytes({v!r})')
-    it.origin[s] = ('from_bytes', v, it.py_key(args[1] if len(args) > 1 else kwargs.get('byteorder')))
+    it.origin[s] = ('from_bytes', v, order)
+    if mk is not None:
+        memo[mk] = s
     return IntV(Lin.sym(s), value_tags(v))
 
 
@@ -1291,7 +1345,8 @@ EXT = {
     'binascii.unhexlify': e_unhexlify, 'binascii.a2b_hex': e_unhexlify,
     'str.maketrans': e_maketrans, 'bytes.maketrans': e_maketrans, 'dict.fromkeys': e_dict_fromkeys, 'functools.partial': e_partial, 'operator.methodcaller': e_methodcaller, 'operator.itemgetter': e_itemgetter,
     'operator.attrgetter': e_attrgetter, 'itertools.compress': e_compress, 'itertools.chain': e_chain, 'itertools.chain.from_iterable': e_chain_from_iterable,
-    'itertools.islice': e_islice, 'itertools.accumulate': e_accumulate,
+    'itertools.islice': e_islice, 'itertools.takewhile': _syn('takewhile2', 2), 'itertools.dropwhile': _syn('dropwhile2', 2),
+    'itertools.repeat': e_repeat, 'itertools.count': e_count, 'itertools.starmap': _syn('starmap2', 2), 'itertools.tee': e_tee, 'itertools.accumulate': e_accumulate,
     'contextlib.ExitStack': e_exitstack, 'contextlib.contextmanager': e_contextmanager,
     'functools.reduce': e_reduce, 'operator.xor': _operator('op_xor'), 'operator.add': _operator('op_add'),
     'operator.or_': _operator('op_or'), 'operator.and_': _operator('op_and'),
